@@ -14,7 +14,9 @@ pub fn build_db(ws: &Ws, r: &Rendered, order: &[usize], fresh: bool) -> FixtureD
 pub fn build_db_at(ws: &Ws, r: &Rendered, order: &[usize], fresh: bool, root: &str) -> FixtureDatabase {
     let db = FixtureDatabase::new();
     for (i, f) in ws.files.iter().enumerate() {
-        if f.plugin {
+        // entry-point modules are registered as plugin files by the real scan wherever they live:
+        // workspace plugins (editable installs) and installed third-party plugins alike
+        if f.plugin || f.is_third_party() {
             db.plugin_fixture_files.insert(ws.path_in(root, i), ());
         }
     }
